@@ -421,6 +421,21 @@ func init() {
 		}
 		return "", ""
 	})
+	// args: name with a label longer than 63 bytes: the encoder must refuse it (a length octet >= 64 is not a label)
+	Oracle("c09.long_label_rejected", func(a []Val) (string, string) {
+		name := a[0].Str()
+		long := false
+		for _, l := range strings.Split(name, ".") {
+			long = long || len(l) > 63
+		}
+		if !long {
+			return "", ""
+		}
+		if enc, err := llmnr.EncodeDomainName(name); err == nil {
+			return "C09/long-label-encoded", fmt.Sprintf("EncodeDomainName(%q) = %x", name, enc)
+		}
+		return "", ""
+	})
 	// args: message.  Decode(Encode(m)) has the same header, questions and records in all four sections.
 	Oracle("c09.msg_roundtrip", func(a []Val) (string, string) {
 		m := c09ValMsg(a[0])
@@ -696,6 +711,14 @@ func genC09(c *Ctx) {
 		enc, _ := llmnr.EncodeDomainName(name)
 		c.Case("llmnr.encode_name", S(name))
 		c.Case("llmnr.decode_name", B(cat(pre, enc, suf)), I(int64(len(pre))))
+		if rep%10 == 1 {
+			long := c09Label(r, r.Pick(64, 64, 65, 100, 255, 256)) + "." + name
+			if r.Bool() {
+				long = name + "." + c09Label(r, r.Pick(64, 64, 65, 191, 192))
+			}
+			c.Check("c09.long_label_rejected", S(long))
+			c.Case("llmnr.encode_name", S(long))
+		}
 		if rep%10 == 0 {
 			for _, m := range Malformed(enc, 6) {
 				c.Case("llmnr.decode_name", B(m), I(0))
